@@ -2,13 +2,17 @@
 //! one cache file) with (a) the scenarios TLC generated from MCBootCache and (b) seeded random
 //! operation sequences, crafted cache files (chosen timestamps / counters / corrupt contents), a torn
 //! write (writer process that hits a file-size limit in the middle of the write) and several writer
-//! processes flushing to one file while this process keeps loading it.
+//! processes flushing to one file while this process keeps loading it, and several tasks of ONE process flushing
+//! clones of a store (the way the node's event loop does it) while the main thread keeps loading.
+//! Addresses are judged by IDENTITY, not only by shape: an entry is well formed (`wf`) only if its text has the
+//! dialable shape ip4/(udp/quic-v1 | tcp[/ws])/p2p/<id>, is the canonical text of a (peer, address) pair the
+//! driver presented, and is stored under the peer id it carries (raw file and load: the map key).
 //! After every call it logs the projected state: peers and addresses as small integers, counters,
 //! expired flag, shape flag -- computed from the public API and from the raw file by this driver.
 //!
 //!   drv_bootcache run --scenarios <ndjson> --out <trace.ndjson> --dir <scratch> --random <n> --stress <flushes>
 //!   drv_bootcache writer --file <cache> --id <w> --flushes <n> --peers <n> [--fsize <bytes>]   (child)
-use ant_bootstrap::{craft_valid_multiaddr, BootstrapCacheConfig, BootstrapCacheStore};
+use ant_bootstrap::{craft_valid_multiaddr, BootstrapCacheConfig, BootstrapCacheStore, PeersArgs};
 use libp2p::{Multiaddr, PeerId};
 use rand::{rngs::StdRng, Rng};
 use serde::Deserialize;
@@ -28,17 +32,23 @@ fn peer_id(k: u64) -> PeerId {
     b.extend_from_slice(&d);
     PeerId::from_bytes(&b).expect("sha256 multihash is a peer id")
 }
-/// transport class of address id a: 1 quic, 2 tcp, 3 ws, 0 plain udp
+/// transport class of address id a: 2 tcp, 3 ws, 0 and 1 quic (udp without quic-v1 is not dialable: see plain_udp)
 fn canonical(k: u64, a: u64) -> String {
     let ip = format!("10.{}.{}.{}", (k / 200) % 200, k % 200, a % 200);
     let port = 4000 + a;
     let id = peer_id(k);
     match a % 4 {
-        1 => format!("/ip4/{ip}/udp/{port}/quic-v1/p2p/{id}"),
         2 => format!("/ip4/{ip}/tcp/{port}/p2p/{id}"),
         3 => format!("/ip4/{ip}/tcp/{port}/ws/p2p/{id}"),
-        _ => format!("/ip4/{ip}/udp/{port}/p2p/{id}"),
+        _ => format!("/ip4/{ip}/udp/{port}/quic-v1/p2p/{id}"),
     }
+}
+/// udp WITHOUT quic-v1: no transport of the network dials it (scenario class VERIF_ENABLE_PLAINUDP)
+fn plain_udp(k: u64, a: u64) -> String {
+    format!("/ip4/10.{}.{}.{}/udp/{}/p2p/{}", (k / 200) % 200, k % 200, a % 200, 4000 + a, peer_id(k))
+}
+fn enabled(name: &str) -> bool {
+    std::env::var(name).map(|v| !v.is_empty() && v != "0").unwrap_or(false)
 }
 /// presentations of (k, a) that must be accepted and stored as the canonical address
 fn presentation_ok(k: u64, a: u64, v: u64) -> String {
@@ -53,24 +63,24 @@ fn presentation_ok(k: u64, a: u64, v: u64) -> String {
         1 => format!("{c}/p2p-circuit/p2p/{other}"),
         // peer id first
         2 => match a % 4 {
-            1 => format!("/p2p/{id}/ip4/{ip}/udp/{port}/quic-v1"),
             2 => format!("/p2p/{id}/ip4/{ip}/tcp/{port}"),
             3 => format!("/p2p/{id}/ip4/{ip}/tcp/{port}/ws"),
-            _ => format!("/p2p/{id}/ip4/{ip}/udp/{port}"),
+            _ => format!("/p2p/{id}/ip4/{ip}/udp/{port}/quic-v1"),
         },
         // extra protocols that are dropped
         3 => match a % 4 {
             1 => format!("/ip4/{ip}/udp/{port}/quic-v1/webtransport/p2p/{id}"),
             2 => format!("/ip4/{ip}/tcp/{port}/noise/p2p/{id}"),
             3 => format!("/ip4/{ip}/tcp/{port}/tls/ws/p2p/{id}"),
-            _ => format!("/ip4/{ip}/udp/{port}/utp/p2p/{id}"),
+            _ => format!("/ip4/{ip}/udp/{port}/utp/quic-v1/p2p/{id}"),
         },
         // a second ip / dns component after the first
         _ => match a % 4 {
             1 => format!("/ip4/{ip}/ip6/::1/udp/{port}/quic-v1/p2p/{id}"),
             2 => format!("/ip4/{ip}/dns/example.com/tcp/{port}/p2p/{id}"),
             3 => format!("/ip4/{ip}/tcp/{port}/ws/p2p/{id}/p2p/{other}"),
-            _ => format!("/ip4/{ip}/udp/{port}/p2p/{id}/p2p-circuit"),
+            // quic-v1 AFTER the peer id, then a circuit towards another peer
+            _ => format!("/ip4/{ip}/udp/{port}/p2p/{id}/quic-v1/p2p-circuit/p2p/{other}"),
         },
     }
 }
@@ -92,33 +102,60 @@ fn presentation_bad(k: u64, a: u64, v: u64) -> String {
 
 struct Ids {
     by_addr: HashMap<String, (u64, u64)>,
+    by_peer: HashMap<String, u64>,
+    other: HashMap<String, (u64, u64)>,
     extra: u64,
 }
 impl Ids {
     fn new(max_k: u64, max_a: u64) -> Self {
-        let mut by_addr = HashMap::new();
+        let mut ids = Ids { by_addr: HashMap::new(), by_peer: HashMap::new(), other: HashMap::new(), extra: 0 };
         for k in 1..=max_k {
             for a in 1..=max_a {
-                by_addr.insert(canonical(k, a), (k, a));
+                ids.ensure(k, a);
             }
         }
-        Ids { by_addr, extra: 0 }
+        ids
     }
     fn ensure(&mut self, k: u64, a: u64) {
         self.by_addr.insert(canonical(k, a), (k, a));
+        self.by_peer.insert(peer_id(k).to_string(), k);
     }
-    fn of(&mut self, addr: &str) -> (u64, u64) {
-        if let Some(x) = self.by_addr.get(addr) {
+    /// (k, a) of a canonical text the driver presented, or None
+    fn known(&self, addr: &str) -> Option<(u64, u64)> {
+        self.by_addr.get(addr).copied()
+    }
+    /// small id of a peer id (map key of the cache); an unknown one gets a fresh id >= 9000
+    fn peer(&mut self, pid: &str) -> u64 {
+        if let Some(k) = self.by_peer.get(pid) {
+            return *k;
+        }
+        self.extra += 1;
+        let k = 9000 + self.extra;
+        self.by_peer.insert(pid.to_string(), k);
+        k
+    }
+    /// ids of an entry that is NOT a canonical text stored under its own peer: stable per (key, text)
+    fn foreign(&mut self, key: Option<&str>, addr: &str) -> (u64, u64) {
+        // (where the observation does not show the key -- a store's memory -- the peer id the text carries stands for it,
+        // so that an entry has the same ids in the memory and in the file it is flushed to)
+        let carried = first_p2p(addr);
+        let key = key.or(carried.as_deref());
+        let tag = format!("{}|{addr}", key.unwrap_or(""));
+        if let Some(x) = self.other.get(&tag) {
             return *x;
         }
         self.extra += 1;
-        let x = (9000 + self.extra, 1);
-        self.by_addr.insert(addr.to_string(), x);
+        let x = match key {
+            Some(pid) => (self.peer(pid), 1000 + self.extra),
+            None => (9000 + self.extra, 1),
+        };
+        self.other.insert(tag, x);
         x
     }
 }
 
-/// ip4/(udp[/quic-v1] | tcp[/ws])/p2p/<id>, decided on the printed form (independent of craft_valid_multiaddr)
+/// ip4/(udp/quic-v1 | tcp[/ws])/p2p/<id>, decided on the printed form (independent of craft_valid_multiaddr).
+/// "dialable": the transports of the network are QUIC over udp, tcp and websocket over tcp; a bare udp port is not.
 fn well_formed(addr: &str) -> bool {
     let c: Vec<&str> = addr.split('/').collect();
     if c.len() < 7 || !c[0].is_empty() || c[1] != "ip4" || c[2].parse::<std::net::Ipv4Addr>().is_err() {
@@ -129,12 +166,16 @@ fn well_formed(addr: &str) -> bool {
     }
     let rest: &[&str] = match (c[3], c.get(5).copied()) {
         ("udp", Some("quic-v1")) => &c[6..],
-        ("udp", _) => &c[5..],
         ("tcp", Some("ws")) => &c[6..],
         ("tcp", _) => &c[5..],
         _ => return false,
     };
     rest.len() == 2 && rest[0] == "p2p" && rest[1].parse::<PeerId>().is_ok()
+}
+/// the first /p2p component of a printed multiaddress
+fn first_p2p(addr: &str) -> Option<String> {
+    let c: Vec<&str> = addr.split('/').collect();
+    c.iter().position(|x| *x == "p2p").and_then(|i| c.get(i + 1)).map(|x| x.to_string())
 }
 
 // counters can be as large as u32::MAX (crafted files); TLC has 32-bit signed integers
@@ -150,16 +191,29 @@ fn proj_counts(s: u32, f: u32) -> (u64, u64) {
         (CAP as u64 + 1, CAP as u64 + 1)
     }
 }
-fn is_old(last_seen: SystemTime, expiry: Duration) -> bool {
+/// (expired, future-dated): the statement is silent on an address last seen in the future
+fn age_class(last_seen: SystemTime, expiry: Duration) -> (bool, bool) {
     match SystemTime::now().duration_since(last_seen) {
-        Ok(d) => d >= expiry,
-        Err(_) => false,
+        Ok(d) => (d >= expiry, false),
+        Err(_) => (false, true),
     }
 }
-fn entry(ids: &mut Ids, addr: &str, s: u32, f: u32, last_seen: SystemTime, expiry: Duration) -> Value {
-    let (k, a) = ids.of(addr);
+/// `key`: the peer id the entry is stored under (map key), where the observation shows it
+fn entry(ids: &mut Ids, key: Option<&str>, addr: &str, s: u32, f: u32, last_seen: SystemTime, expiry: Duration) -> Value {
+    let shape = well_formed(addr);
+    let known = ids.known(addr);
+    let keyok = match key {
+        None => true,
+        Some(pid) => first_p2p(addr).as_deref() == Some(pid),
+    };
+    let (k, a) = match known {
+        Some(x) if keyok => x,
+        _ => ids.foreign(key, addr),
+    };
     let (s, f) = proj_counts(s, f);
-    json!({"k": k, "a": a, "s": s, "f": f, "old": is_old(last_seen, expiry), "wf": well_formed(addr)})
+    let (old, fut) = age_class(last_seen, expiry);
+    json!({"k": k, "a": a, "s": s, "f": f, "old": old, "fut": fut, "wf": shape && known.is_some() && keyok,
+           "shape": shape, "ident": known.is_some(), "keyok": keyok})
 }
 fn sorted(mut v: Vec<Value>) -> Value {
     v.sort_by_key(|e| (e["k"].as_u64(), e["a"].as_u64()));
@@ -189,18 +243,20 @@ fn raw_file(ids: &mut Ids, path: &Path, expiry: Duration) -> Value {
     let Ok(text) = String::from_utf8(bytes) else { return json!({"kind": "corrupt", "c": []}) };
     let Ok(rc) = serde_json::from_str::<RawCache>(&text) else { return json!({"kind": "corrupt", "c": []}) };
     let mut out = vec![];
+    let mut mp = 0usize;
     for (pid, addrs) in rc.peers.iter() {
         if pid.parse::<PeerId>().is_err() {
             return json!({"kind": "corrupt", "c": []});
         }
+        mp = mp.max(addrs.len());
         for ra in addrs {
             if ra.addr.parse::<Multiaddr>().is_err() {
                 return json!({"kind": "corrupt", "c": []});
             }
-            out.push(entry(ids, &ra.addr, ra.success_count, ra.failure_count, ra.last_seen, expiry));
+            out.push(entry(ids, Some(pid), &ra.addr, ra.success_count, ra.failure_count, ra.last_seen, expiry));
         }
     }
-    json!({"kind": "cache", "c": sorted(out), "np": rc.peers.len()})
+    json!({"kind": "cache", "c": sorted(out), "np": rc.peers.len(), "mp": mp})
 }
 
 // ------------------------------------------------------------------ real objects
@@ -228,25 +284,35 @@ fn load(ids: &mut Ids, c: &Cfg, file: &Path) -> Value {
         Ok(Ok(data)) => {
             let mut out = vec![];
             let mut key_mismatch = false;
+            let mut mp = 0usize;
             for (pid, addrs) in data.peers.iter() {
+                let pid = pid.to_string();
+                mp = mp.max(addrs.0.len());
                 for ba in addrs.0.iter() {
                     let s = ba.addr.to_string();
-                    if !s.ends_with(&format!("/p2p/{pid}")) {
+                    if first_p2p(&s).as_deref() != Some(pid.as_str()) {
                         key_mismatch = true;
                     }
-                    out.push(entry(ids, &s, ba.success_count, ba.failure_count, ba.last_seen, c.expiry));
+                    out.push(entry(ids, Some(&pid), &s, ba.success_count, ba.failure_count, ba.last_seen, c.expiry));
                 }
             }
-            json!({"kind": "data", "c": sorted(out), "np": data.peers.len(), "key_mismatch": key_mismatch})
+            json!({"kind": "data", "c": sorted(out), "np": data.peers.len(), "mp": mp, "key_mismatch": key_mismatch})
         }
     }
 }
 fn obs(ids: &mut Ids, st: &BootstrapCacheStore, c: &Cfg) -> Value {
+    // (the public API of a store does not show under which peer an address is kept: the raw file and a load do)
+    let mut per: HashMap<String, usize> = HashMap::new();
     let v: Vec<Value> = st
         .get_all_addrs()
-        .map(|ba| entry(ids, &ba.addr.to_string(), ba.success_count, ba.failure_count, ba.last_seen, c.expiry))
+        .map(|ba| {
+            let s = ba.addr.to_string();
+            *per.entry(first_p2p(&s).unwrap_or_default()).or_insert(0) += 1;
+            entry(ids, None, &s, ba.success_count, ba.failure_count, ba.last_seen, c.expiry)
+        })
         .collect();
-    json!({"mem": sorted(v), "np": st.peer_count()})
+    json!({"mem": sorted(v), "np": st.peer_count(), "mp": per.values().copied().max().unwrap_or(0),
+           "dis": st.config().disable_cache_writing})
 }
 
 struct World {
@@ -295,9 +361,47 @@ impl World {
         };
         let o = match self.stores.get(&p) {
             Some((st, c)) => obs(&mut self.ids, st, c),
-            None => json!({"mem": [], "np": 0}),
+            None => json!({"mem": [], "np": 0, "mp": 0, "dis": false}),
         };
-        self.emit(t, json!({"ev": "New", "p": p, "k": 0, "a": 0, "x": false, "res": res, "obs": o}), &c, src);
+        self.emit(t, json!({"ev": "New", "p": p, "k": 0, "a": 0, "x": false, "res": res, "obs": o, "first": false}), &c, src);
+    }
+    /// a store made by new_from_peers_args. `use_dir`: PeersArgs::bootstrap_cache_dir names the directory of the world's
+    /// cache file (it takes precedence, by the function's documentation) while the config names a decoy path;
+    /// `first` writes an empty cache over the file; `local` / `disable` make flushes leave the file alone.
+    #[allow(clippy::too_many_arguments)]
+    fn new_store_args(&mut self, t: &mut Trace, p: u64, c: Cfg, first: bool, local: bool, disable: bool, use_dir: bool, dir_is_file: bool, src: &str) {
+        let decoy = self.dir.join("decoy").join("bootstrap_cache.json");
+        let cache_dir = if dir_is_file { self.dir.join("a_file") } else { self.file.parent().expect("parent").to_path_buf() };
+        if dir_is_file {
+            std::fs::write(&cache_dir, b"x").expect("file in place of the cache dir");
+        }
+        let rc = real_cfg(&c, if use_dir { &decoy } else { &self.file }).with_disable_cache_writing(disable);
+        let args = PeersArgs {
+            first,
+            addrs: vec![],
+            network_contacts_url: vec![],
+            local,
+            disable_mainnet_contacts: true,
+            ignore_cache: false,
+            bootstrap_cache_dir: if use_dir { Some(cache_dir) } else { None },
+        };
+        let r = guarded(|| BootstrapCacheStore::new_from_peers_args(&args, Some(rc)));
+        let res = match r {
+            Ok(Ok(st)) => {
+                self.stores.insert(p, (st, c.clone()));
+                "Ok"
+            }
+            Ok(Err(_)) => "Err",
+            Err(_) => "Panic",
+        };
+        let o = match self.stores.get(&p) {
+            Some((st, c)) if res == "Ok" => obs(&mut self.ids, st, c),
+            _ => json!({"mem": [], "np": 0, "mp": 0, "dis": false}),
+        };
+        let decoy_written = decoy.exists();
+        self.emit(t, json!({"ev": "New", "p": p, "k": 0, "a": 0, "x": false, "res": res, "obs": o, "first": first && res == "Ok",
+            "args": {"first": first, "local": local, "disable": disable, "use_dir": use_dir, "dir_is_file": dir_is_file},
+            "decoy_written": decoy_written}), &c, src);
     }
     fn store_op(&mut self, t: &mut Trace, op: &Value, src: &str) {
         let name = op["op"].as_str().expect("op").to_string();
@@ -325,6 +429,14 @@ impl World {
                     Err(e) => panic!("driver presentation does not parse: {text}: {e}"),
                 }
             }
+            "AddPlain" => {
+                let text = plain_udp(k.max(1), a.max(1));
+                extra = json!({"text": text});
+                match text.parse::<Multiaddr>() {
+                    Ok(ma) => guarded(|| { st.add_addr(ma); true }),
+                    Err(e) => panic!("driver presentation does not parse: {text}: {e}"),
+                }
+            }
             "AddBad" => {
                 let text = presentation_bad(k.max(1), a.max(1), nvar);
                 extra = json!({"text": text});
@@ -345,7 +457,7 @@ impl World {
             "Flush" | "Write" => {
                 let pre = load(&mut self.ids, &c, &file);
                 let rawpre = raw_file(&mut self.ids, &file, c.expiry);
-                extra = json!({"pre": pre, "rawpre": rawpre});
+                extra = json!({"pre": pre, "rawpre": rawpre, "dis": st.config().disable_cache_writing});
                 if name == "Flush" {
                     guarded(|| st.sync_and_flush_to_disk(x).is_ok())
                 } else {
@@ -427,6 +539,46 @@ fn cache_json(entries: &[(u64, u64, u64, u64, i64)]) -> String {
     }
     serde_json::to_string_pretty(&json!({"peers": peers, "last_updated": ts(0), "network_version": "verif_1"})).expect("json")
 }
+/// An entry of a crafted file that may be abnormal: stored under peer `key` (normally k), written in `form`
+/// (0 canonical; 1 udp without quic-v1; 2 no peer id; 3 dns4; 4 ip6; 5 a relay circuit kept whole); a = 0: the peer
+/// `key` with an empty address list; age < 0: last seen in the future. The same (k, a) may occur twice.
+#[derive(Clone, Copy)]
+struct FE { k: u64, a: u64, s: u64, f: u64, age: i64, key: u64, form: u64 }
+fn fe(k: u64, a: u64, s: u64, f: u64, age: i64) -> FE { FE { k, a, s, f, age, key: k, form: 0 } }
+fn file_addr(k: u64, a: u64, form: u64) -> String {
+    let ip = format!("10.{}.{}.{}", (k / 200) % 200, k % 200, a % 200);
+    let port = 4000 + a;
+    let id = peer_id(k);
+    match form {
+        0 => canonical(k, a),
+        1 => plain_udp(k, a),
+        2 => format!("/ip4/{ip}/udp/{port}/quic-v1"),
+        3 => format!("/dns4/example.com/udp/{port}/quic-v1/p2p/{id}"),
+        4 => format!("/ip6/::1/tcp/{port}/p2p/{id}"),
+        _ => format!("{}/p2p-circuit/p2p/{}", canonical(k, a), peer_id(k + 7777)),
+    }
+}
+fn cache_json_x(entries: &[FE]) -> String {
+    let mut peers = serde_json::Map::new();
+    for e in entries {
+        let pid = peer_id(e.key).to_string();
+        let list = peers.entry(pid).or_insert_with(|| json!([])).as_array_mut().expect("arr");
+        if e.a > 0 {
+            list.push(json!({"addr": file_addr(e.k, e.a, e.form), "success_count": e.s, "failure_count": e.f, "last_seen": ts(e.age)}));
+        }
+    }
+    serde_json::to_string_pretty(&json!({"peers": peers, "last_updated": ts(0), "network_version": "verif_1"})).expect("json")
+}
+fn entries_text_x(es: &[FE]) -> Value {
+    json!(serde_json::to_string(&es.iter().map(|e| json!([e.k, e.a, e.s, e.f, e.age, e.key, e.form])).collect::<Vec<_>>()).expect("json"))
+}
+fn set_file_x(t: &mut Trace, w: &mut World, es: &[FE], label: &str, src: &str) {
+    for e in es {
+        w.ids.ensure(e.k.max(1), e.a.max(1));
+        w.ids.ensure(e.key.max(1), 1);
+    }
+    w.env_op_x(t, "SetFile", 0, 0, Some(cache_json_x(es).into_bytes()), label, src, json!({"entries": entries_text_x(es)}));
+}
 fn corrupt_contents(valid: &str) -> Vec<(String, Vec<u8>)> {
     let mut v: Vec<(String, Vec<u8>)> = vec![
         ("empty".into(), vec![]),
@@ -505,18 +657,32 @@ fn writer_main() {
     }
     let c = Cfg { max_p: 1500, max_a: 6, expiry: Duration::from_secs(24 * HOUR) };
     let (mut ok, mut err, mut panics) = (0u64, 0u64, 0u64);
+    // addresses this writer knew before a flush that FAILED and that are neither in its memory nor in the file after it
+    let mut lost = 0u64;
     for i in 0..flushes {
         let r = guarded(|| {
             let mut st = BootstrapCacheStore::new(real_cfg(&c, &file)).expect("store");
+            let mut mine = vec![];
             for j in 0..peers {
                 let k = 1000 * id + (i * 7 + j) % (peers * 2);
-                st.add_addr(canonical(k, 1 + (i + j) % 4).parse().expect("addr"));
+                let text = canonical(k, 1 + (i + j) % 4);
+                st.add_addr(text.parse().expect("addr"));
+                mine.push(text);
             }
-            st.sync_and_flush_to_disk(i % 2 == 0).is_ok()
+            let flushed = st.sync_and_flush_to_disk(i % 2 == 0).is_ok();
+            let mut gone = 0u64;
+            if !flushed {
+                let mut have: std::collections::HashSet<String> = st.get_all_addrs().map(|b| b.addr.to_string()).collect();
+                if let Ok(d) = BootstrapCacheStore::load_cache_data(&real_cfg(&c, &file)) {
+                    have.extend(d.peers.values().flat_map(|a| a.0.iter().map(|b| b.addr.to_string())));
+                }
+                gone = mine.iter().filter(|m| !have.contains(*m)).count() as u64;
+            }
+            (flushed, gone)
         });
-        match r { Ok(true) => ok += 1, Ok(false) => err += 1, Err(_) => panics += 1 }
+        match r { Ok((true, _)) => ok += 1, Ok((false, g)) => { err += 1; lost += g; } Err(_) => panics += 1 }
     }
-    println!("{}", json!({"id": id, "ok": ok, "err": err, "panics": panics}));
+    println!("{}", json!({"id": id, "ok": ok, "err": err, "panics": panics, "lost": lost}));
 }
 
 fn spawn_writer(file: &Path, id: u64, flushes: u64, peers: u64, fsize: Option<u64>) -> std::process::Child {
@@ -534,7 +700,7 @@ fn child_report(ch: std::process::Child) -> Value {
     let out = ch.wait_with_output().expect("child");
     let text = String::from_utf8_lossy(&out.stdout).to_string();
     let mut v = text.lines().last().and_then(|l| serde_json::from_str::<Value>(l).ok())
-        .unwrap_or(json!({"ok": 0, "err": 0, "panics": 0, "noreport": true}));
+        .unwrap_or(json!({"ok": 0, "err": 0, "panics": 0, "lost": 0, "noreport": true}));
     v["exit"] = json!(out.status.code().unwrap_or(-1));
     v
 }
@@ -578,7 +744,7 @@ fn stress(t: &mut Trace, base: &Path, run: u64, writers: u64, flushes: u64) {
     w.seq += 1;
     let e = json!({"ev": "Stress", "p": 0, "k": 0, "a": 0, "x": false, "res": "Ok", "writers": writers, "flushes": flushes,
         "loads": loads, "data": data, "io_err": io_err, "parse_err": parse_err, "panics": panics, "child_panics": child_panics,
-        "first_bad": first_bad.unwrap_or_default(), "children": reports,
+        "mode": "processes", "first_bad": first_bad.unwrap_or_default(), "children": reports,
         "run": run, "seq": w.seq, "src": "stress", "cfg": cfg_json(&c),
         "raw": {"kind": rawk, "c": []}, "load": {"kind": loadk, "c": []}});
     t.emit(e);
@@ -603,7 +769,8 @@ fn torn(t: &mut Trace, base: &Path, run: u64, limit: u64) {
     let loadk = match fin { Ok(Ok(_)) => "data", Ok(Err(_)) => "none", Err(_) => "panic" };
     let rawk = match (std::fs::read(&w.file).is_ok(), loadk) { (false, _) => "absent", (true, "data") => "cache", _ => "corrupt" };
     w.seq += 1;
-    t.emit(json!({"ev": "Torn", "p": 0, "k": 0, "a": 0, "x": false, "res": "Ok", "limit": limit, "child": rep,
+    let lost = rep["lost"].as_u64().unwrap_or(0);
+    t.emit(json!({"ev": "Torn", "p": 0, "k": 0, "a": 0, "x": false, "res": "Ok", "limit": limit, "child": rep, "lost": lost,
         "run": run, "seq": w.seq, "src": "torn", "cfg": cfg_json(&c),
         "raw": {"kind": rawk, "c": []}, "load": {"kind": loadk, "c": []}}));
     w.done();
@@ -616,8 +783,12 @@ fn random_run(t: &mut Trace, base: &Path, run: u64, r: &mut StdRng, steps: usize
     let (nk, na) = (6u64, 4u64);
     let mut w = World::new(base, run, nk, na, c.clone());
     let nstores = r.gen_range(1..=3u64);
+    // co-located stores normally share one configuration; in some runs each has its own limits
+    let own_limits = r.gen_range(0..10) < 3;
+    let dirty = enabled("VERIF_ENABLE_DIRTYFILE");
     for p in 1..=nstores {
-        w.new_store(t, p, c.clone(), "random");
+        let cp = if own_limits && p > 1 { Cfg { max_p: r.gen_range(1..=4), max_a: r.gen_range(1..=3), expiry: c.expiry } } else { c.clone() };
+        w.new_store(t, p, cp, "random");
     }
     let exp = c.expiry.as_secs() as i64;
     for _ in 0..steps {
@@ -634,15 +805,35 @@ fn random_run(t: &mut Trace, base: &Path, run: u64, r: &mut StdRng, steps: usize
             83..=90 => {
                 // crafted valid file: chosen counters and ages (far from the expiry edge on both sides)
                 let n = r.gen_range(0..=8);
-                let mut es = vec![];
+                let mut es: Vec<FE> = vec![];
+                let abnormal = r.gen_range(0..10) < 4;
                 for _ in 0..n {
                     let (k, a) = (r.gen_range(1..=nk), r.gen_range(1..=na));
-                    if es.iter().any(|e: &(u64, u64, u64, u64, i64)| e.0 == k && e.1 == a) { continue; }
+                    if es.iter().any(|e| e.k == k && e.a == a) { continue; }
                     let (s, f) = match r.gen_range(0..6) { 0 => (0, 0), 1 => (1, 0), 2 => (1, 1), 3 => (1, 2), 4 => (5, 2), _ => (0, 3) };
-                    let age = if r.gen_bool(0.3) { exp + HOUR as i64 } else if exp > 0 { r.gen_range(0..=(exp - 1800).max(0)).min(exp / 2) } else { 0 };
-                    es.push((k, a, s, f, age));
+                    let mut age = if r.gen_bool(0.3) { exp + HOUR as i64 } else if exp > 0 { r.gen_range(0..=(exp - 1800).max(0)).min(exp / 2) } else { 0 };
+                    if abnormal && r.gen_range(0..4) == 0 {
+                        // last seen in the future (far from now: I11)
+                        age = -(HOUR as i64) * r.gen_range(1..=48);
+                    }
+                    let mut e = fe(k, a, s, f, age);
+                    if abnormal && dirty && r.gen_range(0..4) == 0 {
+                        if r.gen_bool(0.5) { e.form = r.gen_range(1..=5); } else { e.key = r.gen_range(1..=nk); }
+                    }
+                    es.push(e);
+                    if abnormal && r.gen_range(0..4) == 0 {
+                        // the same address a second time, with other counters
+                        es.push(FE { s: s + 1 + r.gen_range(0..2), f: f + r.gen_range(0..2), age: age + 7, ..e });
+                    }
                 }
-                set_file(t, &mut w, &es, "crafted", "random");
+                if abnormal {
+                    for _ in 0..r.gen_range(0..=3) {
+                        // a peer with an empty address list
+                        let k = r.gen_range(1..=nk);
+                        if !es.iter().any(|e| e.key == k) { es.push(fe(k, 0, 0, 0, 0)); }
+                    }
+                }
+                set_file_x(t, &mut w, &es, if abnormal { "abnormal" } else { "crafted" }, "random");
             }
             91..=94 => w.env_op(t, "ExpireFile", k, a, None, "", "random"),
             95..=96 => w.env_op(t, "Delete", 0, 0, None, "", "random"),
@@ -695,8 +886,10 @@ fn counter_sweep(t: &mut Trace, base: &Path, run: u64) {
     w.done();
 }
 
-/// the public craft function on one presentation: whatever it returns has the cache's address shape
-fn craft_event(t: &mut Trace, w: &mut World, text: &str, src: &str) {
+/// the public craft function on one presentation of (k, a). `ok`: the presentation is one the statement calls dialable
+/// (it carries ip4, a dialable transport and a peer id): the result has to be THE canonical address of (k, a), not
+/// merely an address of the right shape. Other presentations: whatever it returns has the cache's address shape.
+fn craft_event(t: &mut Trace, w: &mut World, text: &str, k: u64, a: u64, ok: bool, src: &str) {
     let ma: Multiaddr = text.parse().expect("presentation parses");
     let r = guarded(|| craft_valid_multiaddr(&ma, false).map(|m| m.to_string()));
     let (res, crafted, wf) = match &r {
@@ -704,8 +897,10 @@ fn craft_event(t: &mut Trace, w: &mut World, text: &str, src: &str) {
         Ok(None) => ("Err", String::new(), true),
         Err(_) => ("Panic", String::new(), true),
     };
+    let same = crafted == canonical(k, a);
     let c = w.obs_cfg.clone();
-    w.emit(t, json!({"ev": "Craft", "p": 0, "k": 0, "a": 0, "x": false, "res": res, "text": text, "crafted": crafted, "wf": wf}), &c, src);
+    w.emit(t, json!({"ev": "Craft", "p": 0, "k": k, "a": a, "x": false, "res": res, "text": text, "crafted": crafted, "wf": wf,
+        "ok": ok, "same": same}), &c, src);
 }
 
 /// all multiaddress presentations through the public craft functions and add_addr
@@ -718,16 +913,241 @@ fn shape_sweep(t: &mut Trace, base: &Path, run: u64) {
             for v in 0..5u64 {
                 w.nvar = v + 4; // store_op adds 1 before choosing the presentation
                 w.store_op(t, &json!({"op": "Add", "p": 1, "k": k, "a": a, "x": false}), "shapes");
-                craft_event(t, &mut w, &presentation_ok(k, a, v), "shapes");
+                craft_event(t, &mut w, &presentation_ok(k, a, v), k, a, true, "shapes");
             }
         }
     }
     for v in 0..8u64 {
         w.nvar = v + 7;
         w.store_op(t, &json!({"op": "AddBad", "p": 1, "k": 1, "a": 1, "x": false}), "shapes");
-        craft_event(t, &mut w, &presentation_bad(1, 1, v), "shapes");
+        craft_event(t, &mut w, &presentation_bad(1, 1, v), 1, 1, false, "shapes");
+    }
+    if enabled("VERIF_ENABLE_PLAINUDP") {
+        // udp without quic-v1: accepted by craft_valid_multiaddr, dialable by no transport
+        for k in 4..=5u64 {
+            w.store_op(t, &json!({"op": "AddPlain", "p": 1, "k": k, "a": 1, "x": false}), "shapes");
+            craft_event(t, &mut w, &plain_udp(k, 1), k, 1, false, "shapes");
+        }
     }
     w.store_op(t, &json!({"op": "Flush", "p": 1, "x": true}), "shapes");
+    w.done();
+}
+
+/// crafted files that parse but are abnormal: addresses last seen in the future, the same address twice, peers with
+/// an empty list, more empty peers than the peer limit -- and (VERIF_ENABLE_DIRTYFILE) ill-formed addresses and addresses
+/// under another peer's key. After load + clean-up what the store exposes has to be bounded and well formed.
+fn abnormal_sweep(t: &mut Trace, base: &Path, run0: u64, dirty: bool) -> u64 {
+    let h = HOUR as i64;
+    let mut cases: Vec<(&str, Vec<FE>)> = vec![
+        ("future-only", vec![fe(1, 1, 1, 0, -h)]),
+        ("future-and-fresh", vec![fe(1, 1, 1, 0, -2 * h), fe(1, 2, 1, 0, 0), fe(2, 1, 1, 0, -h), fe(3, 1, 2, 1, 60)]),
+        ("far-future", vec![fe(1, 1, 3, 0, -87_600 * h), fe(2, 2, 1, 0, 0)]),
+        ("future-failing", vec![fe(1, 1, 0, 3, -h), fe(1, 2, 1, 0, 0)]),
+        ("duplicate", vec![fe(1, 1, 1, 0, 0), fe(1, 1, 3, 1, 10)]),
+        ("duplicate-over-limit", vec![fe(1, 1, 1, 0, 0), fe(1, 1, 3, 1, 10), fe(1, 2, 2, 0, 20), fe(1, 1, 4, 1, 30)]),
+        ("duplicate-one-failing", vec![fe(1, 1, 0, 2, 0), fe(1, 1, 2, 0, 10), fe(2, 1, 1, 0, 0)]),
+        ("empty-peer", vec![fe(1, 0, 0, 0, 0), fe(2, 1, 1, 0, 0)]),
+        ("empty-peers-over-limit", vec![fe(1, 0, 0, 0, 0), fe(2, 0, 0, 0, 0), fe(3, 0, 0, 0, 0), fe(4, 0, 0, 0, 0), fe(5, 1, 1, 0, 0)]),
+        ("only-empty-peers", vec![fe(1, 0, 0, 0, 0), fe(2, 0, 0, 0, 0), fe(3, 0, 0, 0, 0)]),
+        ("mixed", vec![fe(1, 0, 0, 0, 0), fe(2, 1, 1, 0, -h), fe(2, 1, 2, 0, 5), fe(3, 1, 1, 0, 0), fe(3, 2, 1, 0, 0), fe(4, 1, 1, 2, 0), fe(5, 1, 1, 0, 25 * h)]),
+    ];
+    if dirty {
+        for form in 1..=5u64 {
+            cases.push(("ill-formed", vec![FE { form, ..fe(1, 1, 1, 0, 0) }, fe(2, 1, 1, 0, 0)]));
+        }
+        cases.push(("wrong-key", vec![FE { key: 2, ..fe(1, 1, 1, 0, 0) }]));
+        cases.push(("wrong-key-shared", vec![FE { key: 2, ..fe(1, 1, 1, 0, 0) }, fe(1, 1, 2, 0, 5), fe(2, 1, 1, 0, 0)]));
+        cases.push(("wrong-key-over-limit", vec![FE { key: 3, ..fe(1, 1, 1, 0, 0) }, FE { key: 3, ..fe(2, 1, 1, 0, 0) }, fe(3, 1, 1, 0, 0), fe(3, 2, 1, 0, 0)]));
+    }
+    let mut run = run0;
+    for (max_p, max_a) in [(2usize, 1usize), (3, 2)] {
+        run += 1;
+        let c = Cfg { max_p, max_a, expiry: Duration::from_secs(24 * HOUR) };
+        let mut w = World::new(base, run, 6, 4, c.clone());
+        w.new_store(t, 1, c.clone(), "abnormal");
+        for (label, es) in cases.iter() {
+            // what a load exposes (part of the event), a merge without and one with clean-up on top of it
+            set_file_x(t, &mut w, es, label, "abnormal");
+            w.store_op(t, &json!({"op": "Add", "p": 1, "k": 1, "a": 1, "x": false, "v": 0}), "abnormal");
+            w.store_op(t, &json!({"op": "Flush", "p": 1, "x": false}), "abnormal");
+            set_file_x(t, &mut w, es, label, "abnormal");
+            w.store_op(t, &json!({"op": "Add", "p": 1, "k": 6, "a": 2, "x": false, "v": 0}), "abnormal");
+            w.store_op(t, &json!({"op": "Upd", "p": 1, "k": 6, "a": 2, "x": true}), "abnormal");
+            w.store_op(t, &json!({"op": "Flush", "p": 1, "x": true}), "abnormal");
+        }
+        w.done();
+    }
+    run
+}
+
+/// many addresses of ONE already known peer with no clean-up in between: the per-peer bound holds after every addition
+fn ports_sweep(t: &mut Trace, base: &Path, run: u64) {
+    let c = Cfg { max_p: 50, max_a: 3, expiry: Duration::from_secs(24 * HOUR) };
+    let mut w = World::new(base, run, 3, 12, c.clone());
+    w.new_store(t, 1, c.clone(), "ports");
+    w.store_op(t, &json!({"op": "Add", "p": 1, "k": 2, "a": 1, "x": false, "v": 0}), "ports");
+    for a in 1..=8u64 {
+        w.store_op(t, &json!({"op": "Add", "p": 1, "k": 1, "a": a, "x": false}), "ports");
+    }
+    // the same after status updates made some of the kept addresses better than others, and through a flush
+    for a in 1..=8u64 {
+        w.store_op(t, &json!({"op": "Upd", "p": 1, "k": 1, "a": a, "x": a % 2 == 0}), "ports");
+    }
+    for a in 9..=12u64 {
+        w.store_op(t, &json!({"op": "Add", "p": 1, "k": 1, "a": a, "x": false}), "ports");
+        w.store_op(t, &json!({"op": "Add", "p": 1, "k": 1, "a": a - 8, "x": false}), "ports");
+    }
+    w.store_op(t, &json!({"op": "Flush", "p": 1, "x": false}), "ports");
+    for a in 1..=6u64 {
+        w.store_op(t, &json!({"op": "Add", "p": 1, "k": 1, "a": a, "x": false}), "ports");
+    }
+    w.store_op(t, &json!({"op": "Flush", "p": 1, "x": true}), "ports");
+    w.done();
+}
+
+/// stores made by new_from_peers_args (first / local / bootstrap_cache_dir precedence), a config that disables cache
+/// writing, and stores with different limits on one file
+fn args_sweep(t: &mut Trace, base: &Path, run0: u64) -> u64 {
+    let mut run = run0;
+    let c = Cfg { max_p: 3, max_a: 2, expiry: Duration::from_secs(24 * HOUR) };
+    let small = Cfg { max_p: 1, max_a: 1, expiry: Duration::from_secs(24 * HOUR) };
+    // (first, local, disable, use_dir)
+    for (first, local, disable, use_dir) in [(false, false, false, true), (false, false, false, false), (true, false, false, true),
+        (true, false, false, false), (false, true, false, true), (false, false, true, false), (true, true, false, true)] {
+        run += 1;
+        let mut w = World::new(base, run, 6, 4, c.clone());
+        w.file = w.dir.join("cache").join(ant_bootstrap::config::cache_file_name());
+        // another store has left a cache in the file
+        w.new_store(t, 2, c.clone(), "args");
+        w.store_op(t, &json!({"op": "Add", "p": 2, "k": 3, "a": 1, "x": false}), "args");
+        w.store_op(t, &json!({"op": "Flush", "p": 2, "x": true}), "args");
+        w.new_store_args(t, 1, c.clone(), first, local, disable, use_dir, false, "args");
+        if w.stores.contains_key(&1) {
+            w.store_op(t, &json!({"op": "Add", "p": 1, "k": 1, "a": 1, "x": false}), "args");
+            w.store_op(t, &json!({"op": "Add", "p": 1, "k": 2, "a": 2, "x": false}), "args");
+            w.store_op(t, &json!({"op": "Flush", "p": 1, "x": false}), "args");
+            w.store_op(t, &json!({"op": "Add", "p": 1, "k": 1, "a": 2, "x": false}), "args");
+            w.store_op(t, &json!({"op": "Flush", "p": 1, "x": true}), "args");
+            // a store with smaller limits on the same file
+            w.new_store(t, 3, small.clone(), "args");
+            w.store_op(t, &json!({"op": "Add", "p": 3, "k": 4, "a": 1, "x": false}), "args");
+            w.store_op(t, &json!({"op": "Flush", "p": 3, "x": false}), "args");
+            w.store_op(t, &json!({"op": "Add", "p": 3, "k": 5, "a": 1, "x": false}), "args");
+            w.store_op(t, &json!({"op": "Flush", "p": 3, "x": true}), "args");
+            w.store_op(t, &json!({"op": "Add", "p": 1, "k": 6, "a": 1, "x": false}), "args");
+            w.store_op(t, &json!({"op": "Flush", "p": 1, "x": true}), "args");
+        }
+        w.done();
+    }
+    // bootstrap_cache_dir names a regular file: an error, not a crash
+    run += 1;
+    let mut w = World::new(base, run, 6, 4, c.clone());
+    w.file = w.dir.join("cache").join(ant_bootstrap::config::cache_file_name());
+    w.new_store_args(t, 1, c.clone(), false, false, false, true, true, "args");
+    w.done();
+    run
+}
+
+/// a flush that cannot write (the parent of the cache file is a regular file): what the store knew must not be lost
+fn unwritable(t: &mut Trace, base: &Path, run: u64) {
+    let c = Cfg { max_p: 3, max_a: 2, expiry: Duration::from_secs(24 * HOUR) };
+    let mut w = World::new(base, run, 6, 4, c.clone());
+    let blocker = w.file.parent().expect("parent").to_path_buf();
+    std::fs::write(&blocker, b"not a directory").expect("blocker");
+    w.new_store(t, 1, c.clone(), "unwritable");
+    if w.stores.contains_key(&1) {
+        for (k, a) in [(1u64, 1u64), (2, 1), (1, 2)] {
+            w.store_op(t, &json!({"op": "Add", "p": 1, "k": k, "a": a, "x": false}), "unwritable");
+        }
+        w.store_op(t, &json!({"op": "Flush", "p": 1, "x": false}), "unwritable");
+        w.store_op(t, &json!({"op": "Upd", "p": 1, "k": 1, "a": 1, "x": true}), "unwritable");
+        w.store_op(t, &json!({"op": "Flush", "p": 1, "x": true}), "unwritable");
+        w.store_op(t, &json!({"op": "Write", "p": 1, "x": false}), "unwritable");
+        // the obstacle goes away: the next flush saves everything
+        std::fs::remove_file(&blocker).expect("remove blocker");
+        w.env_op(t, "Delete", 0, 0, None, "unblock", "unwritable");
+        w.store_op(t, &json!({"op": "Flush", "p": 1, "x": true}), "unwritable");
+    }
+    w.done();
+}
+
+/// the way the node flushes: the event loop clones its store, replaces it by an empty one and spawns a task that
+/// flushes the clone -- several such tasks of ONE process run at once on the runtime's threads while this thread loads
+fn stress_tasks(t: &mut Trace, base: &Path, run: u64, owners: u64, rounds: u64) {
+    let c = Cfg { max_p: 1500, max_a: 6, expiry: Duration::from_secs(24 * HOUR) };
+    let mut w = World::new(base, run, 1, 1, c.clone());
+    std::fs::create_dir_all(w.file.parent().expect("parent")).expect("dir");
+    {
+        let mut st = BootstrapCacheStore::new(real_cfg(&c, &w.file)).expect("store");
+        for k in 1..=150u64 {
+            st.add_addr(canonical(500_000 + k, 1 + k % 4).parse().expect("addr"));
+        }
+        st.sync_and_flush_to_disk(true).expect("initial flush");
+    }
+    let rc = real_cfg(&c, &w.file);
+    let rt = tokio::runtime::Builder::new_multi_thread().worker_threads(4).enable_all().build().expect("runtime");
+    let (mut fl_ok, mut fl_err, mut fl_panic) = (0u64, 0u64, 0u64);
+    // the reader: a thread of the same process that keeps loading the file until every flush task is done
+    let stop = std::sync::Arc::new(std::sync::atomic::AtomicBool::new(false));
+    let reader = {
+        let (stop, rc) = (stop.clone(), rc.clone());
+        std::thread::spawn(move || {
+            let (mut loads, mut data, mut io_err, mut parse_err, mut panics) = (0u64, 0u64, 0u64, 0u64, 0u64);
+            let mut first_bad: Option<String> = None;
+            loop {
+                let last = stop.load(std::sync::atomic::Ordering::SeqCst);
+                match guarded(|| BootstrapCacheStore::load_cache_data(&rc)) {
+                    Ok(Ok(_)) => data += 1,
+                    Ok(Err(ant_bootstrap::Error::Io(e))) => { io_err += 1; first_bad.get_or_insert(format!("io: {e}")); }
+                    Ok(Err(e)) => { parse_err += 1; first_bad.get_or_insert(format!("{e}")); }
+                    Err(m) => { panics += 1; first_bad.get_or_insert(m); }
+                }
+                loads += 1;
+                if last {
+                    break;
+                }
+            }
+            (loads, data, io_err, parse_err, panics, first_bad)
+        })
+    };
+    rt.block_on(async {
+        let mut handles = vec![];
+        let mut owners_st: Vec<BootstrapCacheStore> = (0..owners).map(|_| BootstrapCacheStore::new(rc.clone()).expect("store")).collect();
+        for i in 0..rounds {
+            for (o, st) in owners_st.iter_mut().enumerate() {
+                for j in 0..60u64 {
+                    let k = 1000 * (o as u64 + 1) + (i * 7 + j) % 120;
+                    st.add_addr(canonical(k, 1 + (i + j) % 4).parse().expect("addr"));
+                }
+                let mut old = st.clone();
+                *st = BootstrapCacheStore::new(rc.clone()).expect("store");
+                handles.push(tokio::spawn(async move { guarded(|| old.sync_and_flush_to_disk(true).is_ok()) }));
+            }
+            tokio::task::yield_now().await;
+        }
+        for h in handles {
+            match h.await {
+                Ok(Ok(true)) => fl_ok += 1,
+                Ok(Ok(false)) => fl_err += 1,
+                _ => fl_panic += 1,
+            }
+        }
+    });
+    stop.store(true, std::sync::atomic::Ordering::SeqCst);
+    let (loads, data, io_err, parse_err, panics, first_bad) = reader.join().expect("reader thread");
+    drop(rt);
+    let fin = guarded(|| BootstrapCacheStore::load_cache_data(&rc));
+    let loadk = match fin { Ok(Ok(_)) => "data", Ok(Err(_)) => "none", Err(_) => "panic" };
+    let rawk = match (std::fs::read(&w.file).is_ok(), loadk) { (false, _) => "absent", (true, "data") => "cache", _ => "corrupt" };
+    // temporary files the writers left behind in the cache directory
+    let leftovers = std::fs::read_dir(w.file.parent().expect("parent")).map(|d| d.count().saturating_sub(1)).unwrap_or(0);
+    w.seq += 1;
+    t.emit(json!({"ev": "Stress", "p": 0, "k": 0, "a": 0, "x": false, "res": "Ok", "mode": "tasks", "writers": owners, "flushes": rounds,
+        "loads": loads, "data": data, "io_err": io_err, "parse_err": parse_err, "panics": panics, "child_panics": fl_panic,
+        "flush_ok": fl_ok, "flush_err": fl_err, "leftovers": leftovers,
+        "first_bad": first_bad.unwrap_or_default(), "children": [],
+        "run": run, "seq": w.seq, "src": "stress", "cfg": cfg_json(&c),
+        "raw": {"kind": rawk, "c": []}, "load": {"kind": loadk, "c": []}}));
     w.done();
 }
 
@@ -760,9 +1180,13 @@ fn replay_scenario(t: &mut Trace, base: &Path, run: u64, sc: &Value, mc_cfg: &Cf
                     Value::String(s) => serde_json::from_str(s).expect("entries text"),
                     other => other.clone(),
                 };
-                let es: Vec<(u64, u64, u64, u64, i64)> = parsed.as_array().expect("entries").iter()
-                    .map(|e| (e[0].as_u64().unwrap(), e[1].as_u64().unwrap(), e[2].as_u64().unwrap(), e[3].as_u64().unwrap(), e[4].as_i64().unwrap())).collect();
-                set_file(t, &mut w, &es, "crafted", &src);
+                let es: Vec<FE> = parsed.as_array().expect("entries").iter()
+                    .map(|e| {
+                        let k = e[0].as_u64().unwrap();
+                        FE { k, a: e[1].as_u64().unwrap(), s: e[2].as_u64().unwrap(), f: e[3].as_u64().unwrap(), age: e[4].as_i64().unwrap(),
+                             key: e.get(5).and_then(|x| x.as_u64()).unwrap_or(k), form: e.get(6).and_then(|x| x.as_u64()).unwrap_or(0) }
+                    }).collect();
+                set_file_x(t, &mut w, &es, "crafted", &src);
             }
             "Delete" => w.env_op(t, "Delete", 0, 0, None, "", &src),
             "ExpireFile" => w.env_op(t, "ExpireFile", op["k"].as_u64().unwrap(), op["a"].as_u64().unwrap(), None, "", &src),
@@ -829,6 +1253,10 @@ fn main() {
         run += 1; shape_sweep(&mut t, &base, run);
         run += 1; corrupt_sweep(&mut t, &base, run);
         run += 1; counter_sweep(&mut t, &base, run);
+        run += 1; ports_sweep(&mut t, &base, run);
+        run = abnormal_sweep(&mut t, &base, run, enabled("VERIF_ENABLE_DIRTYFILE"));
+        run = args_sweep(&mut t, &base, run);
+        run += 1; unwritable(&mut t, &base, run);
         let mut r = rng(seed);
         for _ in 0..n_rand {
             run += 1;
@@ -842,6 +1270,10 @@ fn main() {
             for writers in [2u64, 3, 4] {
                 run += 1;
                 stress(&mut t, &base, run, writers, stress_flushes);
+            }
+            for owners in [2u64, 4, 8] {
+                run += 1;
+                stress_tasks(&mut t, &base, run, owners, (stress_flushes / 2).max(5));
             }
         }
     }
